@@ -6,9 +6,18 @@ HERE = os.path.dirname(os.path.abspath(__file__))
 sys.path.insert(0, HERE)
 sys.path.insert(0, os.path.join(HERE, "tools"))
 import translate
-from vlib.core import LEAN, LeanLock
+from vlib.core import LEAN, LeanLock, gen_lake
 
+import importlib, json
 repo = os.environ.get("VERIF_REPO", "/repo")
+manifest = json.load(open(os.path.join(HERE, "MANIFEST.json")))
+modules = []
+for c in manifest.get("checks", []):
+    try:
+        mod = importlib.import_module("props.%s" % c["property_id"].lower())
+        modules += [m for m in getattr(mod, "MODULES", []) if m not in modules]
+    except Exception as e:   # a plugin problem shows up when its check runs; setup only warms the build
+        print("setup: cannot import plugin of %s: %s" % (c["property_id"], e))
 with LeanLock():
     for u in sorted(translate.UNITS):
         try:
@@ -16,7 +25,9 @@ with LeanLock():
             full = os.path.join(LEAN, path)
             if not os.path.exists(full) or open(full).read() != text:
                 open(full, "w").write(text)
-        except translate.TranslateError as e:
+        except Exception as e:
             print("setup: translator unit %s failed (%s); keeping the committed Gen file" % (u, e))
-    rc = subprocess.call(["lake", "build"], cwd=LEAN)
+    comps = gen_lake()
+    # only what registered checks need (files of properties still under construction are not built here)
+    rc = subprocess.call(["lake", "build"] + modules + ["iora_model_" + c for c, _, _ in comps], cwd=LEAN)
 sys.exit(rc)
